@@ -191,7 +191,7 @@ class Check(object):
         self.prop = mod.PROP
 
     def evaluate_fresh(self, plan, flavour):
-        u = Usim(flavour)
+        u = Usim(plan.get("flavour", flavour))
         try:
             return self.mod.evaluate(plan, u)
         finally:
@@ -205,7 +205,7 @@ class Check(object):
         if "nruns" in opts:
             nruns = opts["nruns"]
         t0 = time.time()
-        build_s = build([flavour])
+        build_s = build(sorted(set([flavour] + list(getattr(mod, "FLAVOURS", [])))))
         total = usimlib.run_pool(mod.__name__, self.prop, tier, verif_seed, nruns, workers, flavour, wall_cap, opts)
         known = load_known()
         status = 0
